@@ -11,7 +11,7 @@ TB = "Trusted base: rustc/cargo, the harness's own oracles (exact BigRational ar
 
 P = {
  "C01": ("bounded-exhaustive input enumeration of the real mean-CI code vs exact-rational + independent t/normal CDF oracle",
-         "Every sample sequence over stated float alphabets up to a length bound x all confidences x f32/f64 x all call styles, plus streaming states queried at every n across the t->z switch, is executed on the real code and judged against exact rational statistics and an independent Student-t/normal CDF. Exhaustive within the bound; tests pin ~10 data sets.", "4/C01"),
+         "Every sample sequence over stated float alphabets (also scaled by powers of two from 2^-300 to 2^300) up to a length bound x all confidences x f32/f64 x all call styles, streaming states queried at every n across the t->z switch, and all one-shot entry points on vectors up to 2.5e5 values, are executed on the real code and judged against exact rational statistics and an independent Student-t/normal CDF. Exhaustive within the bound; tests pin ~10 data sets.", "4/C01"),
  "C02": ("exhaustive (n,k) triangle x confidence grid x all proportion front-ends vs score-equation oracle",
          "All (n,k) with k<=n+1 up to a bound, all confidences, every front-end (counts, ratio, booleans, predicate, running Stats, Wald) run on the real code; bounds checked against the Wilson roots and the exact score-equation residual; admissibility decided on integers.", "4/C02"),
  "C03": ("exhaustive (n,q,confidence) rank enumeration + all permutations of small samples vs independent Wilson-rank oracle",
@@ -21,15 +21,15 @@ P = {
  "C05": ("bounded-exhaustive enumeration + explicit-state search (BFS over real Geometric/Harmonic registers with fault actions)",
          "All positive samples over a 9-value alphabet up to length 4-5 x confidences: geometric/harmonic intervals compared with the back-transformed real arithmetic interval; BFS over append/extend actions including every non-positive value at every position checks rejection payload and that the state is unchanged.", "4/C05"),
  "C06": ("exhaustive dof sweep (every integer dof 1..~101000, real-valued Welch dofs) x level grid vs independent t/normal CDF oracle",
-         "The critical value implied by the real intervals is pushed through an independent CDF at every integer dof from 1 to beyond the t->z switch and at ~900 real-valued dofs, for all confidences incl. levels below 1/2.", "4/C06"),
+         "The critical value implied by the real intervals is pushed through an independent CDF at every integer dof from 1 to beyond the t->z switch and at ~900 real-valued dofs, for all confidences incl. levels below 1/2, plus a dense sweep of every dof x up to 999 one-sided levels (the upstream quantile routine fails at isolated points that only a sweep meets).", "4/C06"),
  "C07": ("exhaustive enumeration over an order-complete chain (small-scope complete by parametricity) vs bit-set denotations",
          "All intervals of the 3 kinds over a chain realising every order type of <=4 bounds + probe, all ordered pairs and probes, 7 element types: decides the property for every totally ordered element type.", "4/C07, 5"),
  "C08": ("bounded-exhaustive enumeration of sequences x all merge trees, whole-type windows (bf16/f16) and long run-length patterns vs exact rational sums",
          "Every short sequence over a cancellation-forcing alphabet in f64/f32/f16/bf16 through every binary merge tree; all value pairs/triples of tiny float types in an exponent window; run-length patterns up to 1e7 terms and merge chains up to 1e6 registers; error judged against (8u+8nu^2)*sum|x| from exact sums.", "4/C08"),
  "C09": ("explicit-state BFS over real accumulator registers (operation histories) + loom exploration of all schedules of a 3-thread reduce",
-         "BFS over all histories of new/append/extend/from_iter/clone/+/+=/query on pools of real registers for all 8 state types, invariant on every state against the model multiset and the real batch computation; loom explores every interleaving of a caller-side parallel reduce and all merge orders.", "4/C09"),
+         "BFS over all histories of new/append/extend/from_iter/clone/+/+=/query on pools of real registers for all 8 state types, invariant on every state against the model multiset and the real batch computation; long histories (up to 2e5 observations as left/right folds and balanced reductions) and every bulk size around powers of two; loom explores every interleaving of a caller-side parallel reduce and all merge orders.", "4/C09"),
  "C10": ("bounded-exhaustive enumeration of producers x inputs x all ordered level pairs x kinds; relational oracle on returned bounds",
-         "For every producer and every enumerated input, all pairs of levels on the grid and all three kinds: one-sided(L) vs two-sided(2L-1) coincidence, nesting in the level, containment of the point estimate, kind/shape of the result.", "4/C10"),
+         "For every producer and every enumerated input (incl. streaming states beyond the t->normal switch), all pairs of levels on the grid and all three kinds: one-sided(L) vs two-sided(2L-1) coincidence, nesting in the level, containment of the point estimate, kind/shape of the result; plus call-order independence (forward/reverse/stride orders and a fresh thread must agree bit for bit).", "4/C10"),
  "C11": ("fault enumeration: every fault value at every position (1 and 2 faults) x every public entry point under catch_unwind with overflow checks on",
          "Systematic enumeration of invalid/degenerate inputs over the whole public surface; oracle: no undocumented panic, no Ok with NaN or inverted bounds, documented error variant per input class.", "4/C11"),
  "C12": ("exact binomial coverage summed over all outcomes k on (n, p|q, level, kind) grids vs method slack fixed from the oracle's own Wilson formula",
@@ -83,7 +83,9 @@ m = {
     },
     "engines": [
         {"name": "mc-explorer", "path": "/verif/harness", "serves_properties": sorted(BUILT),
-         "kind_free_text": "hand-rolled bounded-exhaustive enumerators and explicit-state BFS over the real stats-ci API (Rust, rayon), exact-rational and independent distribution oracles; loom for schedules (C09); stateright as cross-check engine"},
+         "kind_free_text": "hand-rolled bounded-exhaustive enumerators and explicit-state BFS over the real stats-ci API (Rust, rayon), exact-rational and independent distribution oracles self-tested against committed mpmath tables"},
+        {"name": "loom", "path": "/verif/harness/vloom", "serves_properties": ["C09"],
+         "kind_free_text": "loom 0.7.2 controlled scheduler: all interleavings (no preemption bound) of a 3-thread caller-side parallel reduce, two harness shapes x three state types"},
     ],
     "checks": checks,
     "not_applicable": na,
